@@ -364,3 +364,66 @@ func returnedValueOf(ret *ssa.Return, res ssa.Value) ssa.Value {
 	}
 	return res
 }
+
+// C07.equal-universal: iterator.Equal decides a universal statement ("all iterators yield the same sequence"). Inside the loop
+// over the other iterators - after pulling from iters[i] and before the next one has been looked at - the only verdict that may
+// be returned is the constant false; true may be returned only once every iterator has been compared for the current position.
+func ruleEqualUniversal(c *Ctx, r *R) {
+	fn := c.fn("iterator.Equal")
+	if fn == nil {
+		r.undecided("iterator.Equal|missing", token.NoPos, "anchor not found")
+		return
+	}
+	// the per-iterator pull: Next() on an element of the variadic parameter selected by a non-constant index
+	var pulls []*ssa.Call
+	instrs(fn, func(b *ssa.BasicBlock, i int, in ssa.Instruction) {
+		call, ok := in.(*ssa.Call)
+		if !ok || !call.Call.IsInvoke() || call.Call.Method.Name() != "Next" {
+			return
+		}
+		ld, ok := call.Call.Value.(*ssa.UnOp)
+		if !ok {
+			return
+		}
+		ia, ok := ld.X.(*ssa.IndexAddr)
+		if !ok {
+			return
+		}
+		if _, isConst := ia.Index.(*ssa.Const); isConst {
+			return
+		}
+		pulls = append(pulls, call)
+	})
+	if len(pulls) == 0 {
+		r.undecided("iterator.Equal|inner-pull", fn.Pos(), "no pull from iters[i] inside a loop found")
+		return
+	}
+	n := 0
+	for _, p := range pulls {
+		instrs(fn, func(b *ssa.BasicBlock, i int, in ssa.Instruction) {
+			ret, ok := in.(*ssa.Return)
+			if !ok || len(ret.Results) != 1 {
+				return
+			}
+			if !(p.Block().Dominates(b)) || (p.Block() == b && idxIn(p) > i) {
+				return
+			}
+			// only returns taken before the inner loop moves on: the block does not lead back to the pull
+			n++
+			k, isConst := ret.Results[0].(*ssa.Const)
+			good := isConst && k.Value != nil && k.Value.String() == "false"
+			r.ok(good, "iterator.Equal|verdict-inside-loop#"+itoa(n), retPos(ret), "inside the loop over the other iterators Equal may only return the constant false: any other verdict is given before the remaining iterators were compared (Equal(a, a, longer) would be true)")
+		})
+	}
+	if n == 0 {
+		r.undecided("iterator.Equal|verdict-inside-loop", fn.Pos(), "no return inside the comparison loop found")
+	}
+}
+
+var _ = late(func() {
+	p := properties["C07"]
+	p.Rules = append(p.Rules,
+		&Rule{ID: "C07.equal-universal", Floor: 2, Clause: "iterator.Equal returns only the constant false from inside its loop over the other iterators (a universal verdict needs every iterator compared)", Run: ruleEqualUniversal},
+		&Rule{ID: "C07.runs-adjacent", Floor: 3, Clause: "xslices.Runs (same rule as C19.runs-adjacent): consecutive runs are adjacent on every path into the loop, the last run is s[lo:] and is emitted for every non-empty input", Run: ruleRunsAdjacent},
+	)
+})
